@@ -157,7 +157,7 @@ pub open spec fn tlv_scan(d: Seq<u8>, c: int) -> Result<Seq<TokenExtensionType>>
 //@ fn util/v2/token.rs get_token_extension_types -> r as=get_token_extension_types_bytes nodec canary
     requires tlv_data@.len() <= 0x7FFF_0000, // account data is at most 10 MiB
     ensures
-        tlv_scan(tlv_data@, 0) is Err ==> r is Err,
+        tlv_scan(tlv_data@, 0) is Err <==> r is Err,
         r matches Ok(v) ==> tlv_scan(tlv_data@, 0) == Ok::<Seq<TokenExtensionType>, Error>(v@),
 //@ rewrite /const TLV_TYPE_LENGTH: usize = 2;/ => /let TLV_TYPE_LENGTH: usize = 2;/
 //@ rewrite /const TLV_LENGTH_LENGTH: usize = 2;/ => /let TLV_LENGTH_LENGTH: usize = 2;/
